@@ -1,0 +1,30 @@
+//go:build verif
+
+package wpool
+
+// VerifState is a consistent view of the deferred-send machinery.
+type VerifState struct {
+	Deferred      int
+	FlusherActive bool
+	ChanLen       int
+}
+
+// VerifState returns the number of deferred events, whether the flusher
+// try-lock is held and the channel length, all read under the pool's listM.
+func (p *Pool) VerifState() VerifState {
+	p.listM.Lock()
+	defer p.listM.Unlock()
+
+	var st VerifState
+	st.Deferred = p.el.VerifLen()
+
+	if p.lazySendM.TryLock() {
+		p.lazySendM.Unlock()
+	} else {
+		st.FlusherActive = true
+	}
+
+	st.ChanLen = len(p.ch)
+
+	return st
+}
